@@ -1373,8 +1373,11 @@ func tail(s string, n int) string {
 //   ponder_hit         timed `go ponder`, option on, then `ponderhit`
 //   ponder_stopped     timed `go ponder`, option on, then `stop` (no deadline may fire)   } history
 //   untimed_stopped    go without a clock for the mover, then `stop` (no deadline)        } only
-// For the first three nothing else is written by the GUI: the stop channel has to be closed by the
-// driver's own deadline.
+// For the first three the GUI writes nothing that may end the search: the stop channel has to be closed
+// by the driver's own deadline.  During 40 % of them input arrives while the (no longer pondering)
+// search runs: isready (each answered by readyok), unknown commands, debug, setoption, a stray
+// ponderhit, blank lines, in lexical variants; the first line at once, the others every hard/4,
+// hard/2 or 2*hard until the channel closes.  None of it may move the deadline.
 //   - the clock state is put through uci.VerifTimeControl (the driver's own helpers) and the values
 //     are checked against the property: hard > 0; without movetime hard <= remaining and, when more
 //     than the margin remains, hard <= remaining - margin; with movetime soft = hard = movetime; the
@@ -1399,6 +1402,41 @@ type c14Case struct {
 	lexSet, lexPos     lexT
 	lexGo, lexHit      lexT
 	soft, hard         int64 // helper values for the mover
+	// input arriving while the (timed, no longer pondering) search runs
+	chat      string   // "" | isready | unknown | debug | setoption | ponderhit | blank | mixed
+	chatIv    string   // once | hard/4 | hard/2 | 2*hard: the first line right away, then at this interval
+	chatLines []string // written cyclically
+}
+
+// chatter lines: none of them may influence the deadline (the interrupt goroutine answers isready and
+// ignores the rest; written after the search has ended they are harmless to the session as well)
+func genChatter(rng *rand.Rand, c *c14Case) {
+	opt := map[bool]string{true: "true", false: "false"}[c.optOn]
+	pool := map[string][]string{
+		"isready":   {"isready"},
+		"unknown":   {"bogus command", "xyzzy", "register later", "ucinewgame", "go1", "stopp"},
+		"debug":     {"debug on", "debug off", "debug"},
+		"setoption": {"setoption name Hash value 1", "setoption name Ponder value " + opt, "setoption name Threads value 1", "setoption"},
+		"blank":     {"", " ", "\t"},
+	}
+	kinds := []string{"isready", "isready", "unknown", "debug", "setoption", "blank", "mixed"}
+	if c.variant != "ponder_hit" {
+		// a ponderhit that does not belong to a pondering search (after the real ponderhit of a pondering
+		// search a second one is not conforming: it would legitimately restart the deadline)
+		pool["ponderhit"] = []string{"ponderhit"}
+		kinds = append(kinds, "ponderhit")
+	}
+	c.chat = pick(rng, kinds...)
+	c.chatIv = pick(rng, "once", "hard/4", "hard/4", "hard/2", "hard/2", "2*hard")
+	for k := 0; k < 8; k++ {
+		kind := c.chat
+		if kind == "mixed" {
+			for kind = "mixed"; kind == "mixed" || pool[kind] == nil; {
+				kind = pick(rng, kinds...)
+			}
+		}
+		c.chatLines = append(c.chatLines, genLex(rng).apply(pick(rng, pool[kind]...)))
+	}
 }
 
 func (c *c14Case) ownOps() []string {
@@ -1412,6 +1450,9 @@ func (c *c14Case) ownOps() []string {
 		ops = append(ops, fmt.Sprintf("sleep_ms:%d", c.ponderMs), fmt.Sprintf("send:%q", c.lexHit.apply("ponderhit")))
 	case "ponder_stopped", "untimed_stopped":
 		return append(ops, fmt.Sprintf("sleep_ms:%d", c.ponderMs), fmt.Sprintf("send:%q", c.lexHit.apply("stop")), "waitBest")
+	}
+	if c.chat != "" {
+		ops = append(ops, fmt.Sprintf("while the search runs, first at once then every %s, cyclically: %q", c.chatIv, c.chatLines))
 	}
 	return append(ops, fmt.Sprintf("expect: stop channel closes %d ms later by the driver's deadline (soft %d); waitBest", c.hard, c.soft))
 }
@@ -1594,6 +1635,9 @@ func genC14Session(rng *rand.Rand, sess, firstID int, maxHard int64) []c14Case {
 		}
 		c := genC14(rng, firstID+k, maxHard, variant)
 		c.sess, c.idx, c.prev, c.optOn = sess, k, prev, want
+		if (variant == "plain" || variant == "ponder_option_off" || variant == "ponder_hit") && rng.IntN(10) < 4 {
+			genChatter(rng, &c) // needs the option state: a `setoption name Ponder` among the chatter repeats it
+		}
 		// the way to the wanted option state: nothing, a single setoption, or toggling back and forth
 		var seq []bool
 		switch r := rng.IntN(10); {
@@ -1653,9 +1697,15 @@ func (m *c14Mock) Go(_ *board.Board, opts ...search.Option) (Score, move.Move, m
 	}
 }
 
-type c14Sink struct{ best chan struct{} }
+type c14Sink struct {
+	best  chan struct{}
+	ready atomic.Int64 // readyok lines
+}
 
 func (s *c14Sink) Write(b []byte) (int, error) {
+	if bytes.Equal(b, []byte("readyok\n")) {
+		s.ready.Add(1)
+	}
 	if bytes.HasPrefix(b, []byte("bestmove ")) {
 		select {
 		case s.best <- struct{}{}:
@@ -1772,12 +1822,56 @@ func (s *c14Sess) run(c *c14Case) (fail string, lateMs int64) {
 	}
 	if c.variant == "plain" || c.variant == "ponder_option_off" || c.variant == "ponder_hit" {
 		var tc time.Time
-		select {
-		case tc = <-s.mock.closed:
-		case <-time.After(time.Until(t0.Add(hard + c14Late))):
-			return fmt.Sprintf("hard deadline not enforced: stop channel still open %d ms + 3 s after the %s (Ponder option %s, previous search: %s)",
-				c.hard, map[bool]string{true: "ponderhit", false: "go"}[c.variant == "ponder_hit"], map[bool]string{true: "on", false: "off"}[c.optOn], c.prev), 0
+		// chatter: the first line at once, the following ones at the interval, until the channel closes
+		var iv time.Duration
+		switch c.chatIv {
+		case "hard/4":
+			iv = hard / 4
+		case "hard/2":
+			iv = hard / 2
+		case "2*hard":
+			iv = 2 * hard
 		}
+		iv = max(iv, 100*time.Microsecond)
+		ready0, sentReady, k := s.sink.ready.Load(), int64(0), 0
+		nextChat := time.Now()
+		limit := t0.Add(hard + c14Late)
+	wait:
+		for {
+			var chatC <-chan time.Time
+			if c.chat != "" && (k == 0 || c.chatIv != "once") {
+				chatC = time.After(time.Until(nextChat))
+			}
+			select {
+			case tc = <-s.mock.closed:
+				break wait
+			case <-chatC:
+				l := c.chatLines[k%len(c.chatLines)]
+				if f := strings.Fields(l); len(f) > 0 && f[0] == "isready" {
+					sentReady++
+				}
+				s.write(l)
+				k++
+				nextChat = nextChat.Add(iv)
+			case <-time.After(time.Until(limit)):
+				chat := ""
+				if c.chat != "" {
+					chat = fmt.Sprintf("; %d lines (%s) written every %s while the search ran", k, c.chat, c.chatIv)
+				}
+				return fmt.Sprintf("hard deadline not enforced: stop channel still open %d ms + 3 s after the %s (Ponder option %s, previous search: %s%s)",
+					c.hard, map[bool]string{true: "ponderhit", false: "go"}[c.variant == "ponder_hit"], map[bool]string{true: "on", false: "off"}[c.optOn], c.prev, chat), 0
+			}
+		}
+		defer func() {
+			// every isready written while the search ran is answered (by the interrupt goroutine, or by the
+			// handler when it arrived after the end of the search)
+			for dl := time.Now().Add(c14Late); fail == "" && s.sink.ready.Load()-ready0 != sentReady; {
+				if time.Now().After(dl) {
+					fail = fmt.Sprintf("%d isready written during the search, %d readyok", sentReady, s.sink.ready.Load()-ready0)
+				}
+				time.Sleep(200 * time.Microsecond)
+			}
+		}()
 		el := tc.Sub(t0)
 		if el < hard-c14Early {
 			return fmt.Sprintf("stop channel closed after %d us, earlier than the hard deadline %d ms", el.Microseconds(), c.hard), 0
@@ -1859,6 +1953,11 @@ func suiteC14(ctx *common.Ctx, workers int) {
 		res.Count("c14_session[previous="+c.prev+"|"+c.variant+opt+"]", 1)
 		if len(c.pre) > 1 {
 			res.Count("c14_state_changes_before_search[>=2 lines|"+c.variant+opt+"]", 1)
+		}
+		if c.chat != "" {
+			res.Count("c14_chatter["+c.chat+"|every "+c.chatIv+"|"+map[bool]string{true: "after ponderhit", false: "plain"}[c.variant == "ponder_hit"]+"]", 1)
+		} else if c.variant == "plain" || c.variant == "ponder_option_off" || c.variant == "ponder_hit" {
+			res.Count("c14_chatter[none]", 1)
 		}
 		if static[i] != "" {
 			res.Count("helper_property_violated", 1)
